@@ -40,6 +40,7 @@ def run(ctx, rep):
         check_static_unsafe(crate, rep, cfg)
         check_ioerr(crate, rep, cfg)
         check_wrap(crate, rep, cfg)
+        check_writer_identity(crate, rep, cfg)
     pos = ctx.posctl()
     # positive controls: a struct with a RefCell field; a dropped io::Result
     hits = unsafe_cell_paths(pos, "cellctl::HasCell")
@@ -279,6 +280,40 @@ CORE_PAIRS = {  # public sibling pairs that both reach the VM's render / render_
     ("tera::Tera::render_block", "vm::interpreter::VirtualMachine::<'tera>::render_block"),
     ("tera::Tera::render_block_to", "vm::interpreter::VirtualMachine::<'tera>::render_to"),
 }
+
+
+def check_writer_identity(crate, rep, cfg):
+    """C18.IOERR — the bytes and the I/O errors of a `*_to` call are the caller's writer's: on the render paths the writer parameter is
+    handed on as it is (or a fresh local Vec / io::sink is used and then written with `write_all`), never wrapped in another writer type.
+    A buffering wrapper changes which call sees the error (its Drop flushes and swallows it)."""
+    n = 0
+    for b in crate.bodies.values():
+        if b.kind == "const" or not any(x in (b.j.get("file") or "") for x in ("vm/interpreter.rs", "tera.rs")):
+            continue
+        wparams = [i for i in range(1, b.arg_count + 1) if "Write" in b.local_ty(i)]
+        if not wparams:
+            continue
+        tr = Tracer(b)
+        # every call that receives something derived from the writer parameter: the receiving parameter type must be a reference to / the
+        # writer itself, and the value must be the parameter (reborrowed), not the result of a constructor taking it
+        k = 0
+        for bb, t in b.calls():
+            for ai, a in enumerate(t["args"]):
+                ls = tr.operand(a)
+                if not ls or not any(l.kind == "param" and l.detail in wparams for l in ls):
+                    continue
+                n += 1
+                cd = callee_def(t)
+                local_callee = cd in crate.bodies or any(x in crate.bodies for x in callee_names(t))
+                std_write = cd.startswith("std::io::Write::") or cd.endswith("::deref_mut") or cd.endswith("::deref") or cd.endswith("::by_ref") or "fmt::Arguments" in cd \
+                    or cd.endswith("::borrow_mut") or cd.endswith("::as_mut")
+                indirect = t["f"].get("indirect")
+                ok = local_callee or std_write or bool(indirect)
+                key = "C18.IOERR:%s:writer-handed-on#%d" % (crate.root_of(b).path, k)
+                k += 1
+                rep.add("C18.IOERR", key, ok, b.where(bb), "the caller's writer is only handed to the engine's own functions, the escape callback or std::io::Write methods"
+                        + ("" if ok else " — VIOLATED: passed to %s: a wrapper around the caller's writer decides when (and whether) its errors are reported" % cd))
+    rep.floor("C18.IOERR", "uses of a writer parameter on the render paths [%s]" % cfg, n, 10)
 
 
 def check_wrap(crate, rep, cfg):
